@@ -28,6 +28,10 @@ def generate(ctx):
     ds += [('i', x) for x in gen.INT_POOL] + [('u', x) for x in gen.UINT_POOL] + [('d', x) for x in gen.FLOAT_POOL]
     # strings / keys of 255 .. 65536 bytes, containers of 255 .. 1000 members (sizes.py; second review H2)
     ds += [v for _, v in sizes.string_docs() + sizes.container_docs()]
+    # containers beyond a few thousand elements (a seeded `hardening` clamped the pre-allocation to 4096 and then compared the clamped
+    # count with the number of converted elements)
+    ds += [('a', [('u', i % 7) for i in range(n)]) for n in (4095, 4096, 4097, 5000)] + [('a', [('a', [('b', True)] * 4097)]),
+           ('o', [(('k%05d' % i).encode(), ('u', 1)) for i in range(4097)])]
     ctx.trials = []
     for v in ds:
         e = gen.hexarg(gen.enc(v))
